@@ -95,11 +95,35 @@ class Mon:
         return Ctx(C=cpu.registers.cpsr.c, in_it=itpos != 'out', last_it=itpos == 'last', arch=ctx.cfg['arch_version'],
                    iset='arm' if kind == 'arm' else 'thumb')
 
-    def judge_word(self, kind, w, itpos='out', tag='', check_state=False):
+    def prime_other_set(self, cpu, kind, w):
+        """decode the same NUMBER first in the other instruction set on the same processor object: what the decoder
+        then says about the word in this instruction set must not depend on that history"""
+        r = cpu.registers
+        t, it, olen = r.cpsr.t, r.cpsr.it, cpu.opcode_len
+        try:
+            r.cpsr.it = 0
+            r.cpsr.t = 1 if kind == 'arm' else 0
+            cpu.opcode = w
+            cpu.opcode_len = 32 if kind != 'arm' or (w >> 27) in (0b11101, 0b11110, 0b11111) else 16
+            try:
+                cls = cpu.decode_instruction(w & 0xFFFF if cpu.opcode_len == 16 else w)
+                if cls is not None:
+                    cls.from_bitarray(w & 0xFFFF if cpu.opcode_len == 16 else w, cpu)
+            except Exception:      # noqa: the other set's verdict on this number is not the subject here
+                pass
+        finally:
+            r.cpsr.t = t
+            r.cpsr.it = it
+            cpu.opcode_len = olen
+        self.bump('words_primed_in_the_other_instruction_set')
+
+    def judge_word(self, kind, w, itpos='out', tag='', check_state=False, prime=False):
         """full comparison of one concrete word.  Returns 'ok' | 'skip-unpredictable' | 'violation'"""
         rng = self.rng
         ctx, desc = self.setup(kind, itpos, rng)
         cpu = ctx.cpu
+        if prime:
+            self.prime_other_set(cpu, kind, w)
         table = self.tables[kind]
         rk, row, ops = table.decode(w, self.refctx(ctx, kind, itpos))
         log = set()
@@ -232,10 +256,35 @@ def run_shard_common(pid, spec, kinds):
             kind = spec['set']
             if kind == 'arm':
                 w = rng.getrandbits(32)
+                if i % 3 == 0:
+                    w |= 0xE8000000          # numbers that are also Thumb-32 words
             else:
                 w = (rng.choice([0b11101, 0b11110, 0b11111]) << 27) | rng.getrandbits(27)
             mon.judge_word(kind, w, itpos='out' if kind == 'arm' else rng.choice(['out', 'mid', 'last']), tag='r%d' % (w >> 24),
-                           check_state=(i % 16 == 0))
+                           check_state=(i % 16 == 0), prime=(i % 3 == 0))
+    elif k == 'rows':
+        # words built from the reference rows with the lock-step generator (register pools, structured register lists,
+        # corner immediates, should-be bits honoured) and words one fixed bit away from a word of another row
+        from vf import lockstep
+        rng = mon.rng
+        kind = spec['set']
+        table = mon.tables[kind]
+        rows = [r for r in table.rows if r.kind == 'INSTR']
+        its = ['out'] if kind == 'arm' else ['out', 'mid', 'last']
+        for ri, row in enumerate(rows):
+            if ri % spec['of'] != spec['shard']:
+                continue
+            for j in range(spec['per_row']):
+                w = lockstep.gen_word(table, row, rng, tries=8)
+                if w is None:
+                    mon.bump('row_word_generation_failed')
+                    continue
+                mon.bump('row_words')
+                mon.judge_word(kind, w, itpos=its[j % len(its)], tag='row', prime=(j % 4 == 0))
+        wanted = {id(r) for r in rows}
+        for w, row in lockstep.neighbour_words(table, wanted, rng, max(300, len(rows) * spec['per_row'] // (3 * spec['of']))):
+            mon.bump('alias_neighbour_words')
+            mon.judge_word(kind, w, itpos=rng.choice(its), tag='nb')
     mon.res['violations'] = list(mon.viol.values())
     return mon.res
 
